@@ -277,15 +277,17 @@ fn run_c18(ctx: &mut Ctx) -> Verdict {
         let blank = |q: &MQuad| -> MQuad {
             let mut q = q.clone();
             if let MTerm::Lit(lex, _) | MTerm::Lang(lex, _) = &mut q.0[2] {
-                if lex.chars().all(char::is_whitespace) {
+                // XML white space (S ::= #x20 | #x9 | #xD | #xA), not Unicode's
+                if lex.chars().all(|c| matches!(c, ' ' | '\t' | '\r' | '\n')) {
                     lex.clear();
                 }
             }
             q
         };
+        // (the finding is that such text comes back EMPTY: what the parser returned is taken as
+        // it is; whitespace-only text coming back as other whitespace would be something else)
         let w2: BTreeSet<MQuad> = want.iter().map(blank).collect();
-        let g2: BTreeSet<MQuad> = got.iter().map(blank).collect();
-        if isomorphic(&w2, &g2).is_yes() {
+        if &w2 != want && isomorphic(&w2, got).is_yes() {
             return Some("whitespace_only_text_lost");
         }
         None
